@@ -32,9 +32,12 @@ def c03 (form : String) (e a pre : Bytes) (tag : String) (contents : Bytes)
     let attrOk : Bool :=
       if form == "after-break" then
         -- the typed value is at top level: it must not be found inside any attribute value of the output
-        contents.isEmpty || !(r.tokens.any fun t => match t with
+        -- (neither in a completed attribute nor — the action being the last thing written — in one left open)
+        contents.isEmpty || (!(r.tokens.any fun t => match t with
           | .startTag _ attrs _ => attrs.any fun a => Oracle.C01.contains contents a.2
-          | _ => false)
+          | _ => false) &&
+          (out.drop (out.length - contents.length) != contents ||
+            (tokenize (out.take (out.length - contents.length))).final == .data))
       else if form == "content" || form == "after" || form == "script-type" then true
       else match r.tokens with
         -- exactly the one start tag with the one attribute (the tokenizer may then be in the RCDATA / RAWTEXT /
